@@ -41,6 +41,10 @@ TARGETS = [
     ("arity", "N_Arity", "PL5", 2, 0, 0),
 ]
 
+# burst driver: (scenarios, rounds per scenario); 4-8 goroutines per round
+BURST_QUICK = (16, 25)
+BURST_THOROUGH = (80, 25)
+
 CMDS = {"Start", "PrepOk", "PrepFail", "PrepLost", "Done", "ExecReply", "Evict", "Forget", "Cancel"}
 RES = {"ok": "ok", "err_prepare": "prepare", "err_arity": "arity", "err_ctx": "ctx", "err_unprepared": "unprepared", "none": "none"}
 KS = {"k1": "ks1", "k2": "ks2"}
@@ -311,6 +315,12 @@ def run(ctx):
     binary = fut_build.result()
     f_rep = pool.submit(vf.run_gotest, ctx, binary, "^TestVfC14Replay$", {"VF_C14_SCENARIOS": sp, "VF_C14_PAR": 4}, 1500)
     f_free = pool.submit(vf.run_gotest, ctx, binary, "^TestVfC14Free$", {"VF_C14_SCEN": nfree, "VF_C14_PAR": 4}, 1500)
+    # bursts of simultaneous first-time executions (own output directory: the drivers run side by side)
+    bdir = os.path.join(ctx.tmp, "burst")
+    os.makedirs(bdir, exist_ok=True)
+    nburst, brounds = (BURST_QUICK if quick else BURST_THOROUGH)
+    f_burst = pool.submit(vf.run_gotest, ctx, binary, "^TestVfC14Burst$",
+                          {"VF_C14_SCEN": nburst, "VF_C14_ROUNDS": brounds, "VF_C14_PAR": 2, "VF_OUT": bdir}, 1500)
     f_race = None
     if not quick:
         # the same free-running scenarios (other seeds) under the race detector
@@ -345,6 +355,12 @@ def run(ctx):
         if not os.path.exists(p):
             raise vf.Inconclusive("no trace file %s" % fn)
         recs += vf.read_ndjson(p)
+    rc4, out4 = f_burst.result()
+    s_burst = _summary(out4, "burst")
+    ctx.log("burst: %s" % s_burst)
+    if s_burst.get("failed"):
+        raise vf.Inconclusive("burst scenarios could not be set up: %s" % s_burst.get("first_error"))
+    recs += vf.read_ndjson(os.path.join(bdir, "c14_burst.ndjson"))
     races = 0
     if f_race is not None:
         rc3, out3 = f_race.result()
@@ -396,7 +412,8 @@ def run(ctx):
         behaviours_from_tlc=len(scenarios), target_behaviours=ntarget, behaviours_followed_by_code=followed,
         commands_replayed=sum(r["steps"] for r in results),
         free_scenarios=s_free["scenarios"], free_executors=s_free["execs"], executor_hangs=s_free["hangs"],
-        race_detector_reports=races,
+        race_detector_reports=races, burst_scenarios=s_burst["scenarios"], burst_rounds=s_burst["scenarios"] * s_burst["rounds"],
+        burst_executors=s_burst["execs"],
         events_evaluated_by_tlc=lines, scenarios_with_drift=len(dseen), scenarios_with_violation=len({v["scn"] for v in viols}),
         event_mix=dict(collections.Counter(r["ev"] for r in recs)),
         samples=[dict(kind="tlc behaviour replayed on the real code", name=sample_scn["name"], cache_size=sample_scn["max"],
